@@ -26,6 +26,11 @@ type Cmd struct {
 	Fails int    `json:"fails"` // the handler fails this many times before succeeding (99 = always)
 }
 
+// Void is a command nobody handles (it is published to a topic without subscriber): no reply ever arrives.
+type Void struct {
+	ID string `json:"id"`
+}
+
 // Res is the handler result.
 type Res struct {
 	ID      string `json:"id"`
@@ -34,19 +39,30 @@ type Res struct {
 
 const wgtFrame = "pubsub/sync.WaitGroupTimeout"
 
+const (
+	listenTimeout = 25 * time.Millisecond // ListenForReplyTimeout when configured
+	farDeadline   = time.Hour             // caller context deadline far later than the time-out: never fires within a case
+	// a context deadline is invisible in goroutine dumps: quiescence is only trusted this long after the last pending one
+	deadlineMargin = 40 * time.Millisecond
+)
+
 func init() {
 	vlib.Register(&vlib.Prop{
 		ID:    "C18",
 		Level: "exploration",
-		Cases: func(tier string) int { return vlib.TierN(tier, 320, 42000) },
+		Cases: func(tier string) int { return vlib.TierN(tier, 480, 48000) },
 		Rule: "each case: one GoChannel, Router, cqrs.CommandProcessor with a requestreply handler and a PubSubBackend whose reply topic is shared by all requests; 1..32 concurrent SendWithReplies / SendWithReply calls; " +
-			"handler outcomes per command {result, error, error k times then success (k+1 replies when AckCommandErrors=false)}; AckCommandErrors on/off; optional ListenForReplyTimeout; caller behaviours {drain then cancel, read one and cancel late, never read then cancel, cancel right away}; yield injection at the listener/router/gochannel hook points. " +
-			"Oracle: every reply a caller receives carries its own command id (result id or error text), draining callers get all their replies; the command message is unsettled when its reply is published and afterwards settled as AckCommandErrors says; " +
-			"after cancel (or, when ListenForReplyTimeout is configured, after the time-out alone: callers that stopped reading then never call cancel) and at quiescence OnListenForReplyFinished ran exactly once per request and no listener goroutine remains - checked before the harness touches the reply channel of callers that stopped reading - and then the reply channel is observed closed. " +
-			"Non-trivial: >=2 concurrent requests shared the reply topic, or a caller stopped reading with replies pending. Distinct = (program shape, hook fingerprint).",
+			"handler outcomes per command {result, error, error k times then success (k+1 replies when AckCommandErrors=false), no reply at all (command published to a topic nobody handles)}; in 30% of the cases 2..3 command processors consume the command topic (fan-out: every handler replies, also with AckCommandErrors=true a command then has several replies; <=16 requests then); AckCommandErrors on/off; optional ListenForReplyTimeout (25 ms); " +
+			"caller behaviours {drain then end, late-drain: read nothing until every reply of the case has been produced and the process is quiescent - the listener is then parked on its full reply channel with further replies queued behind it - and only then read everything, read one and end late, never read then end, end right away, SendWithReply}; " +
+			"caller context {no deadline, deadline 1 h (far later than ListenForReplyTimeout), deadline 3..12 ms (sooner than ListenForReplyTimeout)}; the request is ended by {the cancel function, cancelling the caller's own context, nothing at all: the caller relies on ListenForReplyTimeout / its context deadline - always so for callers that stopped reading when one of the two exists, half of the draining callers}; yield injection at the listener/router/gochannel hook points. " +
+			"Oracle: every reply a caller receives carries its own command id (result id or error text); a caller that reads until it has them (promptly or late) gets every reply produced for its command as long as neither a time-out nor a context deadline can end the listening first (reply-missing / reply-lost-while-not-reading when it waits for ever at quiescence); the command message is unsettled when its reply is published and afterwards settled as AckCommandErrors says; " +
+			"after cancel / cancellation of the caller's context (or, when ListenForReplyTimeout is configured or the caller's context has a near deadline, after that alone: such callers never end the request themselves; a reading caller must then see the channel closed - timeout-not-honoured / context-end-not-honoured when it reads for ever at quiescence, the 1 h deadline still pending) and at quiescence OnListenForReplyFinished ran exactly once per request and no listener goroutine remains - checked before the harness touches the reply channel of callers that stopped reading - and then the reply channel is observed closed. " +
+			"Non-trivial: >=2 concurrent requests shared the reply topic, or a caller stopped reading with replies pending. Distinct = (program shape incl. per-caller behaviour/context/ending, hook fingerprint).",
 		Assumptions: []string{
 			"replies after cancel/timeout may be ReplyTimeoutError values; they are not attributed to a command",
-			"for ListenForReplyTimeout cases quiescence is judged only after the harness-known deadline has passed (context deadlines are invisible in goroutine dumps)",
+			"quiescence is judged only after every pending context deadline below 10 min has passed by 40 ms (context deadlines are invisible in goroutine dumps); the deadlines are read at the boundary: from the context the backend hands to the reply subscriber's Subscribe and from the caller contexts the harness creates; the 1 h deadline never fires within a case, so 'still listening at quiescence' is final",
+			"reply completeness is demanded only when neither ListenForReplyTimeout nor a near context deadline is in play (under load those may legitimately end the listening before a reply arrives)",
+			"GoChannel may reorder the replies of one command: a late-draining caller counts replies, it does not stop at the successful one",
 		},
 		Run: run,
 	})
@@ -56,7 +72,13 @@ type caller struct {
 	id         string
 	fails      int
 	replyFault bool   // the first Publish of a reply for this command is rejected by the reply publisher
-	behaviour  string // drain | one-late | never-read | cancel-now | single
+	behaviour  string // drain | late-drain | one-late | never-read | cancel-now | single
+	ctxKind    string // plain (no deadline) | far (deadline 1 h) | near (deadline sooner than ListenForReplyTimeout)
+	nearD      time.Duration
+	endBy      string // cancel (the returned cancel function) | parent (the caller's own context is cancelled) | rely (nothing: time-out / deadline must end it)
+	noReply    bool   // Void command: nobody handles it
+	selfEnding bool   // ListenForReplyTimeout or a near context deadline ends the listening without the caller
+	endCalled  bool   // the caller has ended the request (cancel function / its context)
 	expect     int    // replies the handler will produce
 	got        []string
 	foreign    []string
@@ -77,8 +99,16 @@ func run(e *vlib.Env) vlib.Result {
 	useTimeout := r.Chance(0.2)
 	useOnHandle := r.Bool()
 	yieldP := []float64{0, 0.3, 0.6}[r.Intn(3)]
-	timeout := 25 * time.Millisecond
-	spec := fmt.Sprintf("requests=%d ackCommandErrors=%v listenTimeout=%v onHandle=%v yield=%.1f", n, ackErrors, useTimeout, useOnHandle, yieldP)
+	timeout := listenTimeout
+	// fan-out: several command processors consume the command topic, every one of them handles (and replies to) each command
+	fanout := 1
+	if r.Chance(0.3) {
+		fanout = r.Range(2, 3)
+		if n > 16 {
+			n = 16 // every listener sees every reply of the case: keep the quadratic traffic bounded
+		}
+	}
+	spec := fmt.Sprintf("requests=%d ackCommandErrors=%v listenTimeout=%v onHandle=%v yield=%.1f handlers=%d", n, ackErrors, useTimeout, useOnHandle, yieldP, fanout)
 	res := vlib.Result{Class: fmt.Sprintf("ackErrors=%v/timeout=%v", ackErrors, useTimeout), Spec: spec}
 	wo := vlib.WaitOpts{Watchdog: 40 * time.Second, NoTimerCheck: []string{wgtFrame}}
 
@@ -92,17 +122,52 @@ func run(e *vlib.Env) vlib.Result {
 	logger := watermill.NopLogger{}
 	ps := gochannel.NewGoChannel(gochannel.Config{}, logger)
 	var mu sync.Mutex
-	finished := map[string]int{}                 // command id -> OnListenForReplyFinished calls
-	cmdMsgs := map[string]*message.Message{}     // operation id -> consumed command message (last delivery)
-	cmdCopies := map[string][]*message.Message{} // operation id -> every delivered copy of the command
-	cmdOf := map[string]string{}                 // operation id -> command id
+	finished := map[string]int{}                        // command id -> OnListenForReplyFinished calls
+	deliveries := map[string][]*message.Message{}       // handler#command id -> the command messages handed to that handler, in order
+	notifCmd := map[*message.Message]*message.Message{} // reply notification -> the command delivery it answers
+	cmdOf := map[string]string{}                        // operation id -> command id
 	var settledEarly []string
-	handlerCalls := map[string]int{}
+	handlerCalls := map[string]int{} // handler#command id -> calls
+	hkey := func(h int, cmd string) string { return fmt.Sprintf("%d#%s", h, cmd) }
 	var events atomic.Int64
 	runaway := make(chan struct{})
 	var runawayOnce sync.Once
 	var runawayCmd atomic.Pointer[string]
 	defer runawayOnce.Do(func() { close(runaway) })
+
+	// Pending context deadlines (invisible to the quiescence detector): the latest one below 10 min, read at the boundary.
+	var deadlineMax time.Time
+	noteDeadline := func(ctx context.Context) {
+		if d, ok := ctx.Deadline(); ok && time.Until(d) < 10*time.Minute {
+			mu.Lock()
+			if d.After(deadlineMax) {
+				deadlineMax = d
+			}
+			mu.Unlock()
+		}
+	}
+	deadlineBound := func() time.Time {
+		mu.Lock()
+		defer mu.Unlock()
+		if deadlineMax.IsZero() {
+			return time.Time{}
+		}
+		return deadlineMax.Add(deadlineMargin)
+	}
+	// waitT: WaitUntil that trusts "stuck" only after every deadline known by then has passed
+	waitT := func(cond func() bool) (vlib.Outcome, string) {
+		for {
+			o := wo
+			o.NotBefore = deadlineBound()
+			oc, d := vlib.WaitUntil(cond, o)
+			if oc != vlib.Stuck {
+				return oc, d
+			}
+			if b := deadlineBound(); b.IsZero() || time.Now().After(b) {
+				return oc, d
+			}
+		}
+	}
 
 	replyFaults := map[string]bool{}    // command id -> reject its first reply publish
 	replyFaultFired := map[string]int{} // command id -> rejected reply publishes so far
@@ -115,7 +180,7 @@ func run(e *vlib.Env) vlib.Result {
 			c := cmdOf[op]
 			if replyFaults[c] && replyFaultFired[c] == 0 {
 				replyFaultFired[c]++
-				if cm := cmdMsgs[op]; cm != nil {
+				if cm := notifCmd[m]; cm != nil {
 					failedCopies[cm] = true
 				}
 				return errors.New("scripted reply publisher failure")
@@ -127,7 +192,7 @@ func run(e *vlib.Env) vlib.Result {
 		defer mu.Unlock()
 		for _, m := range msgs {
 			op := m.Metadata.Get(requestreply.OperationIDMetadataKey)
-			if cm := cmdMsgs[op]; cm != nil {
+			if cm := notifCmd[m]; cm != nil {
 				events.Add(1)
 				if st := vlib.Settled(cm); st != "" {
 					settledEarly = append(settledEarly, fmt.Sprintf("command %s was already %sed when the Publish of its reply returned", cmdOf[op], st))
@@ -138,7 +203,7 @@ func run(e *vlib.Env) vlib.Result {
 	bcfg := requestreply.PubSubBackendConfig{
 		Publisher: replyPub,
 		SubscriberConstructor: func(requestreply.PubSubBackendSubscribeParams) (message.Subscriber, error) {
-			return ps, nil
+			return &deadlineSub{inner: ps, note: noteDeadline}, nil
 		},
 		GenerateSubscribeTopic: func(requestreply.PubSubBackendSubscribeParams) (string, error) { return id + "/reply", nil },
 		GeneratePublishTopic:   func(requestreply.PubSubBackendPublishParams) (string, error) { return id + "/reply", nil },
@@ -146,8 +211,7 @@ func run(e *vlib.Env) vlib.Result {
 		AckCommandErrors:       ackErrors,
 		ModifyNotificationMessage: func(msg *message.Message, p requestreply.PubSubBackendOnCommandProcessedParams) error {
 			mu.Lock()
-			cmdMsgs[string(p.OperationID)] = p.CommandMessage
-			cmdCopies[string(p.OperationID)] = append(cmdCopies[string(p.OperationID)], p.CommandMessage)
+			notifCmd[msg] = p.CommandMessage
 			if c, ok := p.Command.(*Cmd); ok {
 				cmdOf[string(p.OperationID)] = c.ID
 			}
@@ -155,9 +219,16 @@ func run(e *vlib.Env) vlib.Result {
 			return nil
 		},
 		OnListenForReplyFinished: func(ctx context.Context, p requestreply.PubSubBackendSubscribeParams) {
-			if c, ok := p.Command.(*Cmd); ok {
+			cid := ""
+			switch c := p.Command.(type) {
+			case *Cmd:
+				cid = c.ID
+			case *Void:
+				cid = c.ID
+			}
+			if cid != "" {
 				mu.Lock()
-				finished[c.ID]++
+				finished[cid]++
 				mu.Unlock()
 			}
 		},
@@ -173,8 +244,13 @@ func run(e *vlib.Env) vlib.Result {
 	router, _ := message.NewRouter(message.RouterConfig{CloseTimeout: time.Hour}, logger)
 	marshaler := cqrs.JSONMarshaler{}
 	bus, err := cqrs.NewCommandBusWithConfig(ps, cqrs.CommandBusConfig{
-		GeneratePublishTopic: func(cqrs.CommandBusGeneratePublishTopicParams) (string, error) { return id + "/commands", nil },
-		Marshaler:            marshaler, Logger: logger,
+		GeneratePublishTopic: func(p cqrs.CommandBusGeneratePublishTopicParams) (string, error) {
+			if _, void := p.Command.(*Void); void {
+				return id + "/nobody-listens", nil
+			}
+			return id + "/commands", nil
+		},
+		Marshaler: marshaler, Logger: logger,
 	})
 	if err != nil {
 		res.Verdict, res.Reason = vlib.HarnessError, err.Error()
@@ -187,35 +263,43 @@ func run(e *vlib.Env) vlib.Result {
 			return params.Handler.Handle(params.Message.Context(), params.Command)
 		}
 	}
-	proc, err := cqrs.NewCommandProcessorWithConfig(router, cqrs.CommandProcessorConfig{
-		GenerateSubscribeTopic: func(cqrs.CommandProcessorGenerateSubscribeTopicParams) (string, error) { return id + "/commands", nil },
-		SubscriberConstructor:  func(cqrs.CommandProcessorSubscriberConstructorParams) (message.Subscriber, error) { return ps, nil },
-		Marshaler:              marshaler, Logger: logger,
-		OnHandle: onHandle,
-	})
-	if err != nil {
-		res.Verdict, res.Reason = vlib.HarnessError, err.Error()
-		return res
-	}
-	err = proc.AddHandlers(requestreply.NewCommandHandlerWithResult[Cmd, Res](id+"/handler", backend, func(ctx context.Context, c *Cmd) (Res, error) {
-		mu.Lock()
-		handlerCalls[c.ID]++
-		att := handlerCalls[c.ID]
-		mu.Unlock()
-		events.Add(1)
-		if att > 60 {
-			// no script redelivers a command that often: a redelivery loop (it would never become quiescent)
-			id := c.ID
-			runawayOnce.Do(func() { runawayCmd.Store(&id); close(runaway) })
+	for h := 0; h < fanout; h++ {
+		h := h
+		proc, err := cqrs.NewCommandProcessorWithConfig(router, cqrs.CommandProcessorConfig{
+			GenerateSubscribeTopic: func(cqrs.CommandProcessorGenerateSubscribeTopicParams) (string, error) { return id + "/commands", nil },
+			SubscriberConstructor:  func(cqrs.CommandProcessorSubscriberConstructorParams) (message.Subscriber, error) { return ps, nil },
+			Marshaler:              marshaler, Logger: logger,
+			OnHandle: onHandle,
+		})
+		if err != nil {
+			res.Verdict, res.Reason = vlib.HarnessError, err.Error()
+			return res
 		}
-		if att <= c.Fails {
-			return Res{ID: c.ID, Attempt: att}, fmt.Errorf("handler failed for %s attempt %d", c.ID, att)
+		err = proc.AddHandlers(requestreply.NewCommandHandlerWithResult[Cmd, Res](fmt.Sprintf("%s/handler%d", id, h), backend, func(ctx context.Context, c *Cmd) (Res, error) {
+			orig := cqrs.OriginalMessageFromCtx(ctx)
+			mu.Lock()
+			k := hkey(h, c.ID)
+			handlerCalls[k]++
+			att := handlerCalls[k]
+			if orig != nil {
+				deliveries[k] = append(deliveries[k], orig)
+			}
+			mu.Unlock()
+			events.Add(1)
+			if att > 60 {
+				// no script redelivers a command that often: a redelivery loop (it would never become quiescent)
+				id := c.ID
+				runawayOnce.Do(func() { runawayCmd.Store(&id); close(runaway) })
+			}
+			if att <= c.Fails {
+				return Res{ID: c.ID, Attempt: att}, fmt.Errorf("handler failed for %s attempt %d", c.ID, att)
+			}
+			return Res{ID: c.ID, Attempt: att}, nil
+		}))
+		if err != nil {
+			res.Verdict, res.Reason = vlib.HarnessError, err.Error()
+			return res
 		}
-		return Res{ID: c.ID, Attempt: att}, nil
-	}))
-	if err != nil {
-		res.Verdict, res.Reason = vlib.HarnessError, err.Error()
-		return res
 	}
 	runDone := make(chan struct{})
 	go func() { defer close(runDone); router.Run(context.Background()) }()
@@ -233,7 +317,7 @@ func run(e *vlib.Env) vlib.Result {
 	}
 
 	// callers
-	behaviours := []string{"drain", "drain", "one-late", "never-read", "cancel-now", "single"}
+	behaviours := []string{"drain", "drain", "late-drain", "late-drain", "one-late", "never-read", "cancel-now", "single"}
 	callers := make([]*caller, n)
 	stoppedReading := 0
 	for i := range callers {
@@ -249,25 +333,66 @@ func run(e *vlib.Env) vlib.Result {
 			c.fails = 0
 		}
 		if ackErrors {
-			// an error is acked: exactly one reply whatever the outcome
-			c.expect = 1
+			// an error is acked: exactly one reply per handler whatever the outcome
+			c.expect = fanout
 		} else {
-			c.expect = c.fails + 1
+			c.expect = fanout * (c.fails + 1)
 		}
-		if c.behaviour == "never-read" || c.behaviour == "one-late" {
-			stoppedReading++
-		}
-		if c.fails == 0 && r.Chance(0.25) {
+		if c.fails == 0 && fanout == 1 && r.Chance(0.25) {
 			// the reply publisher rejects the first reply: the command must be nacked and redelivered, the second reply arrives
 			c.replyFault = true
 			replyFaults[c.id] = true
 		}
+		// the caller's context
+		switch x := r.Intn(20); {
+		case x < 9:
+			c.ctxKind = "plain"
+		case x < 16:
+			c.ctxKind = "far"
+		default:
+			c.ctxKind = "near"
+			c.nearD = time.Duration(r.Range(3, 12)) * time.Millisecond
+		}
+		c.selfEnding = useTimeout || c.ctxKind == "near"
+		// nobody handles the command: no reply ever arrives
+		if r.Chance(0.08) {
+			c.noReply = true
+			c.fails, c.expect, c.replyFault = 0, 0, false
+			delete(replyFaults, c.id)
+		}
+		// what ends the request
+		c.endBy = "cancel"
+		if r.Chance(0.35) {
+			c.endBy = "parent"
+		}
+		switch c.behaviour {
+		case "late-drain", "one-late", "never-read":
+			stoppedReading++
+			if c.selfEnding {
+				// a caller that stopped reading does nothing at all any more: the time-out / its deadline has to end the listening
+				c.endBy = "rely"
+			}
+			if c.behaviour == "late-drain" && c.selfEnding && r.Bool() {
+				c.endBy = []string{"cancel", "parent"}[r.Intn(2)]
+			}
+		case "drain":
+			if c.selfEnding && r.Bool() {
+				c.endBy = "rely"
+			}
+		case "single":
+			// SendWithReply hides the cancel function: without a reply only the time-out or the caller's context ends it
+			c.endBy = "rely"
+			if c.noReply && !c.selfEnding {
+				c.endBy = "parent"
+			}
+		}
 		callers[i] = c
 	}
 	lateCancel := make(chan struct{}) // closed by the harness once every command has been fully handled
-	start := time.Now()
 	classify := func(c *caller, rep requestreply.Reply[Res]) {
 		events.Add(1)
+		mu.Lock()
+		defer mu.Unlock()
 		var te requestreply.ReplyTimeoutError
 		if rep.Error != nil && errors.As(rep.Error, &te) {
 			c.timeouts++
@@ -295,61 +420,117 @@ func run(e *vlib.Env) vlib.Result {
 	for _, c := range callers {
 		go func(c *caller) {
 			defer close(c.done)
-			// the caller's own context is never cancelled before the judgement: a caller that stopped reading and relies on
-			// ListenForReplyTimeout does nothing at all any more (the context is released at teardown)
-			ctx, cancelCtx := context.WithCancel(context.Background())
+			// the caller's own context is never cancelled before the judgement unless that is how this caller ends its request: a caller
+			// that stopped reading and relies on ListenForReplyTimeout / its deadline does nothing at all any more (released at teardown)
+			var ctx context.Context
+			var cancelCtx context.CancelFunc
+			switch c.ctxKind {
+			case "far":
+				ctx, cancelCtx = context.WithTimeout(context.Background(), farDeadline)
+			case "near":
+				ctx, cancelCtx = context.WithTimeout(context.Background(), c.nearD)
+				noteDeadline(ctx)
+			default:
+				ctx, cancelCtx = context.WithCancel(context.Background())
+			}
+			mu.Lock()
 			c.cancelCtx = cancelCtx
-			cmd := &Cmd{ID: c.id, Fails: c.fails}
+			mu.Unlock()
+			var cmd any = &Cmd{ID: c.id, Fails: c.fails}
+			if c.noReply {
+				cmd = &Void{ID: c.id}
+			}
 			if c.behaviour == "single" {
+				if c.endBy == "parent" {
+					go func() {
+						select {
+						case <-lateCancel:
+							mu.Lock()
+							c.endCalled = true
+							mu.Unlock()
+							cancelCtx()
+						case <-c.done:
+						}
+					}()
+				}
 				rep, err := requestreply.SendWithReply[Res](ctx, bus, backend, cmd)
 				if err != nil {
+					mu.Lock()
 					c.sendErr = err.Error()
+					mu.Unlock()
 					return
 				}
 				classify(c, rep)
+				mu.Lock()
 				c.closed = true // SendWithReply cancels by itself; the channel is not visible
+				mu.Unlock()
 				return
 			}
 			ch, cancel, err := requestreply.SendWithReplies[Res](ctx, bus, backend, cmd)
 			if err != nil {
+				mu.Lock()
 				c.sendErr = err.Error()
+				mu.Unlock()
 				return
 			}
+			mu.Lock()
 			c.ch, c.cancel = ch, cancel
+			mu.Unlock()
+			end := func() {
+				mu.Lock()
+				c.endCalled = true
+				mu.Unlock()
+				switch c.endBy {
+				case "cancel":
+					cancel()
+				case "parent":
+					cancelCtx()
+				}
+			}
+			setClosed := func() {
+				mu.Lock()
+				c.closed = true
+				mu.Unlock()
+			}
 			switch c.behaviour {
-			case "drain":
+			case "drain", "late-drain":
+				if c.behaviour == "late-drain" {
+					// not reading while the replies arrive: the first one sits in the channel, the listener is parked with the
+					// second one, the others wait behind it
+					<-lateCancel
+				}
 				for len(c.got)+len(c.foreign) < c.expect {
 					rep, ok := <-ch
 					if !ok {
-						c.closed = true
+						setClosed()
 						return
 					}
 					classify(c, rep)
 				}
-				cancel()
+				end()
 				for rep := range ch {
 					classify(c, rep)
 				}
-				c.closed = true
+				setClosed()
 			case "one-late":
-				if rep, ok := <-ch; ok {
-					classify(c, rep)
+				select {
+				case rep, ok := <-ch:
+					if ok {
+						classify(c, rep)
+					}
+				case <-lateCancel:
 				}
 				<-lateCancel
-				if !useTimeout { // with ListenForReplyTimeout the caller relies on the time-out: the listener must finish by itself
-					cancel()
-				}
+				end()
 			case "never-read":
 				<-lateCancel
-				if !useTimeout {
-					cancel()
-				}
+				end()
 			case "cancel-now":
-				cancel()
+				end()
 				for rep := range ch {
 					classify(c, rep)
 				}
-				c.closed = true
+				setClosed()
 			}
 		}(c)
 	}
@@ -365,36 +546,56 @@ func run(e *vlib.Env) vlib.Result {
 			if c.replyFault {
 				want++
 			}
-			if handlerCalls[c.id] < want {
-				return false
+			if c.noReply {
+				want = 0
+			}
+			for h := 0; h < fanout; h++ {
+				if handlerCalls[hkey(h, c.id)] < want {
+					return false
+				}
 			}
 		}
 		return true
 	}
-	woT := wo
-	if useTimeout {
-		woT.NotBefore = start.Add(timeout + 20*time.Millisecond)
-	}
-	vlib.WaitUntil(func() bool { return allHandled() || runawayCmd.Load() != nil }, woT)
+	waitT(func() bool { return allHandled() || runawayCmd.Load() != nil })
 	// let everything settle - unless a redelivery loop shows up (it never settles)
-	vlib.WaitUntil(func() bool { return runawayCmd.Load() != nil }, woT)
+	waitT(func() bool { return runawayCmd.Load() != nil })
 	if c := runawayCmd.Load(); c != nil {
 		mu.Lock()
-		calls := handlerCalls[*c]
+		calls := 0
+		for h := 0; h < fanout; h++ {
+			if handlerCalls[hkey(h, *c)] > calls {
+				calls = handlerCalls[hkey(h, *c)]
+			}
+		}
 		mu.Unlock()
 		res.Fail("runaway-redelivery", "command %s was handed to the handler %d times and is still being redelivered (no script nacks a command that often); %s", *c, calls, spec)
 		close(lateCancel)
+		mu.Lock()
 		for _, c := range callers {
 			if c.cancelCtx != nil {
 				c.cancelCtx()
 			}
 		}
+		mu.Unlock()
 		vlib.WaitClosed(runDone, wo)
 		res.Events = int(events.Load())
 		res.NonTrivial = true
 		res.Sig = vlib.Sig(spec, "runaway")
 		return res
 	}
+	// which listeners are parked on a full reply channel right now (quiescent: every reply of the case has been produced)?
+	parkedUnread, lateMulti := 0, 0
+	mu.Lock()
+	for _, c := range callers {
+		if (c.behaviour == "late-drain" || c.behaviour == "never-read") && c.expect >= 2 {
+			parkedUnread++
+		}
+		if c.behaviour == "late-drain" && !c.selfEnding && c.expect >= 3 {
+			lateMulti++
+		}
+	}
+	mu.Unlock()
 	close(lateCancel)
 	allDone := make(chan struct{})
 	go func() {
@@ -403,79 +604,107 @@ func run(e *vlib.Env) vlib.Result {
 		}
 		close(allDone)
 	}()
-	if oc, d := vlib.WaitClosed(allDone, woT); oc == vlib.Stuck {
-		res.Fail("caller-stuck", "a caller that drains its reply channel never saw it closed / never got its replies (quiescent): %s", spec)
+	if oc, d := waitT(func() bool { return vlib.IsClosed(allDone) }); oc == vlib.Stuck {
+		mu.Lock()
+		for _, c := range callers {
+			if vlib.IsClosed(c.done) {
+				continue
+			}
+			reading := c.behaviour == "drain" || c.behaviour == "late-drain" || c.behaviour == "cancel-now" || c.behaviour == "single"
+			switch {
+			case c.behaviour == "late-drain" && !c.selfEnding && len(c.got)+len(c.foreign) < c.expect:
+				res.Fail("reply-lost-while-not-reading", "caller %s read nothing while the %d replies of its command were produced, then drained: it received %d of them %v and waits for the rest for ever (quiescent; no time-out, no deadline, not cancelled); %s", c.id, c.expect, len(c.got), c.got, spec)
+			case reading && c.endBy == "rely" && useTimeout && c.ctxKind != "near":
+				res.Fail("timeout-not-honoured", "caller %s (%s, context %s) relies on ListenForReplyTimeout=%s: the time-out passed long ago and the reply channel is still open / SendWithReply has not returned (quiescent); %s", c.id, c.behaviour, c.ctxKind, timeout, spec)
+			case reading && ((c.endBy == "parent" && c.endCalled) || (c.endBy == "rely" && c.ctxKind == "near")):
+				res.Fail("context-end-not-honoured", "caller %s (%s): its context ended (%s) but the reply channel is still open / SendWithReply has not returned (quiescent); %s", c.id, c.behaviour, map[bool]string{true: "deadline " + c.nearD.String(), false: "cancelled"}[c.ctxKind == "near"], spec)
+			default:
+				res.Fail("caller-stuck", "caller %s (%s, ended by %s) that drains its reply channel never saw it closed / never got its replies: %d of %d (quiescent): %s", c.id, c.behaviour, c.endBy, len(c.got), c.expect, spec)
+			}
+		}
+		mu.Unlock()
 		res.Witness = d
 	} else if oc == vlib.Inconclusive {
 		res.Inconclusive("callers neither finished nor quiescent")
 	}
-	if oc, _ := vlib.Settle(woT); oc == vlib.Inconclusive {
+	if oc, _ := waitT(func() bool { return false }); oc == vlib.Inconclusive {
 		res.Inconclusive("not quiescent")
 	}
 
 	// judgement, part 1: before touching the channels of callers that stopped reading
+	readLate, relyFar := 0, 0
 	if res.Verdict == "" {
 		mu.Lock()
 		for _, c := range callers {
-			if c.sendErr != "" {
+			ctxMayEnd := c.ctxKind == "near" || (c.behaviour == "single" && c.endBy == "parent")
+			if c.sendErr != "" && !(ctxMayEnd && strings.Contains(c.sendErr, "context")) {
 				res.Fail("send-error", "SendWithReplies failed: %s (%s)", c.sendErr, spec)
 			}
 			if len(c.foreign) > 0 {
 				res.Fail("foreign-reply", "caller of command %s received replies that do not belong to it: %v (own: %v); %s", c.id, c.foreign, c.got, spec)
 			}
-			// with ListenForReplyTimeout the listening may legitimately end before the last reply (slow machine): completeness is
-			// demanded only without a time-out
-			if !useTimeout && (c.behaviour == "drain" || c.behaviour == "single") && len(c.got) < map[bool]int{true: 1, false: c.expect}[c.behaviour == "single"] && c.timeouts == 0 {
-				res.Fail("reply-missing", "caller %s (%s) received %d of %d expected replies: %v; %s", c.id, c.behaviour, len(c.got), c.expect, c.got, spec)
+			// with ListenForReplyTimeout or a near deadline the listening may legitimately end before the last reply (slow machine):
+			// completeness is demanded only when nothing but the caller itself ends the request - and these callers do so only
+			// after they have got everything
+			want := c.expect
+			if c.behaviour == "single" && want > 1 {
+				want = 1
+			}
+			if !c.selfEnding && (c.behaviour == "drain" || c.behaviour == "late-drain" || c.behaviour == "single") && len(c.got) < want {
+				res.Fail("reply-missing", "caller %s (%s) received %d of %d expected replies: %v (%d time-out replies; nothing but the caller could end the listening); %s", c.id, c.behaviour, len(c.got), want, c.got, c.timeouts, spec)
+			}
+			if c.behaviour == "late-drain" {
+				readLate += len(c.got)
+			}
+			if c.endBy == "rely" && useTimeout && c.ctxKind == "far" {
+				relyFar++
 			}
 			if finished[c.id] != 1 {
-				res.Fail("listener-not-finished", "OnListenForReplyFinished ran %d times for command %s (caller behaviour %s, %d replies produced) after cancel at quiescence, want exactly 1; %s", finished[c.id], c.id, c.behaviour, c.expect, spec)
+				res.Fail("listener-not-finished", "OnListenForReplyFinished ran %d times for command %s (caller behaviour %s, context %s, ended by %s, %d replies produced) at quiescence, want exactly 1; %s", finished[c.id], c.id, c.behaviour, c.ctxKind, c.endBy, c.expect, spec)
 			}
 		}
 		for _, s := range settledEarly {
 			res.Fail("settled-before-reply-published", "%s; %s", s, spec)
 		}
-		for op, cm := range cmdMsgs {
-			c := cmdOf[op]
-			var cl *caller
-			for _, x := range callers {
-				if x.id == c {
-					cl = x
+		for _, cl := range callers {
+			for h := 0; h < fanout && !cl.noReply; h++ {
+				c := cl.id
+				calls := handlerCalls[hkey(h, c)]
+				copies := deliveries[hkey(h, c)]
+				if len(copies) == 0 {
+					continue
 				}
-			}
-			if cl == nil {
-				continue
-			}
-			st := vlib.Settled(cm)
-			events.Add(1)
-			// cmdMsgs keeps the last delivered copy of the command: its outcome decides the expected settlement
-			if ackErrors {
-				// handler errors are acked: no redelivery, so exactly one handler call and no nacked delivery
-				wantCalls := 1
-				if cl.replyFault {
-					wantCalls = 2
-				}
-				if handlerCalls[c] != wantCalls {
-					res.Fail("command-settlement", "command %s: AckCommandErrors=true, %d reply publish failure(s): the handler ran %d times, want %d; %s", c, wantCalls-1, handlerCalls[c], wantCalls, spec)
-				}
-				for i, cp := range cmdCopies[op] {
-					if s := vlib.Settled(cp); s != "ack" && !failedCopies[cp] {
-						res.Fail("command-settlement", "command %s: AckCommandErrors=true but delivery #%d of the command is %q; %s", c, i+1, s, spec)
+				// the outcome of the last delivery to this handler decides the expected final settlement
+				st := vlib.Settled(copies[len(copies)-1])
+				events.Add(1)
+				if ackErrors {
+					// handler errors are acked: no redelivery, so exactly one handler call and no nacked delivery
+					wantCalls := 1
+					if cl.replyFault {
+						wantCalls = 2
+					}
+					if calls != wantCalls {
+						res.Fail("command-settlement", "command %s: AckCommandErrors=true, %d reply publish failure(s): handler %d ran %d times, want %d; %s", c, wantCalls-1, h, calls, wantCalls, spec)
+					}
+					for i, cp := range copies {
+						if s := vlib.Settled(cp); s != "ack" && !failedCopies[cp] {
+							res.Fail("command-settlement", "command %s: AckCommandErrors=true but delivery #%d of the command to handler %d is %q; %s", c, i+1, h, s, spec)
+						}
 					}
 				}
-			}
-			// a delivery whose reply could not be published must never be acked ("only after the reply was published")
-			for i, cp := range cmdCopies[op] {
-				if failedCopies[cp] && vlib.Settled(cp) == "ack" {
-					res.Fail("acked-without-reply", "command %s: delivery #%d was acked although the Publish of its reply failed; %s", c, i+1, spec)
+				// a delivery whose reply could not be published must never be acked ("only after the reply was published")
+				for i, cp := range copies {
+					if failedCopies[cp] && vlib.Settled(cp) == "ack" {
+						res.Fail("acked-without-reply", "command %s: delivery #%d was acked although the Publish of its reply failed; %s", c, i+1, spec)
+					}
 				}
-			}
-			wantAck := ackErrors || handlerCalls[c] > cl.fails
-			if wantAck && st != "ack" {
-				res.Fail("command-settlement", "command %s: last delivery is %q, want ack (AckCommandErrors=%v, handler calls %d, fails %d); %s", c, st, ackErrors, handlerCalls[c], cl.fails, spec)
-			}
-			if !wantAck && st != "nack" {
-				res.Fail("command-settlement", "command %s: last delivery is %q, want nack; %s", c, st, spec)
+				wantAck := ackErrors || calls > cl.fails
+				if wantAck && st != "ack" {
+					res.Fail("command-settlement", "command %s: last delivery to handler %d is %q, want ack (AckCommandErrors=%v, handler calls %d, fails %d); %s", c, h, st, ackErrors, calls, cl.fails, spec)
+				}
+				if !wantAck && st != "nack" {
+					res.Fail("command-settlement", "command %s: last delivery to handler %d is %q, want nack; %s", c, h, st, spec)
+				}
 			}
 		}
 		mu.Unlock()
@@ -489,23 +718,27 @@ func run(e *vlib.Env) vlib.Result {
 	// part 2: the reply channels of callers that stopped reading must be closed
 	if res.Verdict == "" {
 		for _, c := range callers {
-			if c.ch == nil || c.closed {
+			mu.Lock()
+			ch, closed := c.ch, c.closed
+			mu.Unlock()
+			if ch == nil || closed {
 				continue
 			}
 			ended := make(chan struct{})
-			go func(c *caller) {
-				for range c.ch {
+			go func() {
+				for range ch {
 				}
 				close(ended)
-			}(c)
-			if oc, d := vlib.WaitClosed(ended, woT); oc == vlib.Stuck {
-				res.Fail("reply-channel-not-closed", "reply channel of command %s (caller %s) was never closed after cancel (quiescent); %s", c.id, c.behaviour, spec)
+			}()
+			if oc, d := waitT(func() bool { return vlib.IsClosed(ended) }); oc == vlib.Stuck {
+				res.Fail("reply-channel-not-closed", "reply channel of command %s (caller %s, context %s, ended by %s) was never closed (quiescent); %s", c.id, c.behaviour, c.ctxKind, c.endBy, spec)
 				res.Witness = d
 				break
 			}
 		}
 	}
 	// teardown
+	mu.Lock()
 	for _, c := range callers {
 		if c.cancel != nil {
 			c.cancel()
@@ -514,6 +747,7 @@ func run(e *vlib.Env) vlib.Result {
 			c.cancelCtx()
 		}
 	}
+	mu.Unlock()
 	cd := make(chan struct{})
 	go func() { router.Close(); ps.Close(); close(cd) }()
 	vlib.WaitClosed(cd, wo)
@@ -524,16 +758,47 @@ func run(e *vlib.Env) vlib.Result {
 	res.Events = int(events.Load())
 	res.Hooks = ctl.Counts()
 	res.Count("requests", n)
+	if fanout > 1 {
+		res.Count("fanout_cases", 1)
+	}
 	res.Count("callers_that_stopped_reading", stoppedReading)
+	res.Count("listeners_parked_on_full_channel", parkedUnread)
+	res.Count("late_drainers_with_3plus_replies", lateMulti)
+	res.Count("replies_read_late", readLate)
+	res.Count("relying_on_timeout_with_far_deadline", relyFar)
+	kinds := map[string]int{}
+	for _, c := range callers {
+		kinds["ctx_"+c.ctxKind]++
+		kinds["end_by_"+c.endBy]++
+		if c.noReply {
+			kinds["no_reply_requests"]++
+		}
+	}
+	for k, v := range kinds {
+		res.Count(k, v)
+	}
 	res.NonTrivial = n >= 2 || stoppedReading > 0
 	shape := spec
 	for _, c := range callers {
-		shape += fmt.Sprintf("|%s:%d", c.behaviour, c.fails)
+		shape += fmt.Sprintf("|%s:%d:%s:%s:%v", c.behaviour, c.fails, c.ctxKind, c.endBy, c.noReply)
 	}
 	res.Sig = vlib.Sig(shape, ctl.Fingerprint())
-	res.Sample = map[string]any{"spec": spec, "callers": len(callers), "stopped_reading": stoppedReading}
+	res.Sample = map[string]any{"spec": spec, "callers": len(callers), "stopped_reading": stoppedReading, "late_drainers_with_3plus_replies": lateMulti, "relying_on_timeout_with_far_deadline": relyFar}
 	return res
 }
+
+// deadlineSub is the reply subscriber handed to the backend: it notes the deadline of the context the listener subscribes with.
+type deadlineSub struct {
+	inner message.Subscriber
+	note  func(context.Context)
+}
+
+func (d *deadlineSub) Subscribe(ctx context.Context, topic string) (<-chan *message.Message, error) {
+	d.note(ctx)
+	return d.inner.Subscribe(ctx, topic)
+}
+
+func (d *deadlineSub) Close() error { return nil }
 
 type samplingPub struct {
 	inner  message.Publisher
